@@ -188,7 +188,16 @@ def k_view_offset_zero_panic(case, code):
                 and case.get("input", "").find("00000000") >= 0)
 
 
+def k_complex_list_pop(case, code):
+    """ztyp ComplexListView.Pop zeroes the node at index len instead of len-1: the popped element stays in the tree"""
+    pr = (case or {}).get("program") or []
+    return bool(case and code & 2 and case.get("kind") == "mutation/complex_list_pop" and len(pr) == 1 and pr[0].startswith("pop ")
+                and case.get("live_same_bytes") and case.get("live_root") != case.get("fresh_view_root")
+                and case.get("fresh_view_root") == case.get("struct_root"))
+
+
 KNOWN_MATCH = {
+    "ztyp_complex_list_pop_leaves_last_element": k_complex_list_pop,
     "struct_ignores_trailing_bytes_after_fixed_size_value": k_trailing_fixed,
     "list_accepts_empty_variable_size_element": k_empty_var_element,
     "view_container_first_offset_unchecked": k_view_first_offset,
